@@ -62,6 +62,17 @@ def judge_ctl(run, cases, rows):
                             "that the Configuration holds for the object: %s" % (i + 1, c["id"], ev["op"], ev["spec"]["kind"], ev["spec"].get("ns"), ev["spec"].get("name"), json.dumps(un)[:400]),
                             theorem="harness rule unnamedWarnings (zz_verif_arbctl.go)")
                 break
+        # a weights-only edit that makes the split invalid (sum != 100), delivered to the real update handler with
+        # -weight-changes-dynamic-reload on: the validation error must be reported, for a two-way and for a three-way split
+        for n, wp in zip((2, 3), c.get("weight_probe_invalid") or []):
+            rej = [e for e in wp.get("events") or [] if e.get("type") == "Warning" and "VirtualServer/wp/inv%d" % n == e.get("obj")]
+            if not rej or wp.get("stored"):
+                run.failing({"kind": "validation-error-not-reported", "level": "controller-events", "how": "weights-only-edit", "splits": n}, [c],
+                            "C05: with -weight-changes-dynamic-reload, after the history of case %d a served VirtualServer with a %d-way split is edited so that only the weights change and no "
+                            "longer add up to 100; the update goes through the real informer update handler and the real sync: %s; events %s"
+                            % (c["id"], n, "no Warning event about it was recorded" if not rej else "it was rejected, but the next unrelated event made it active again (it holds its host) although its most recent report is the rejection", json.dumps(wp.get("events"))[:400]),
+                            theorem="harness arb (VerifCtl.WeightProbeInvalid)")
+                break
         if r[DS] != 0:
             ev = c["histories"][0]["events"][r[DS] - 1]
             run.failing({"kind": KIND.get(r[DC], str(r[DC])), "level": "controller-events", "event_kind": ev["spec"]["kind"]}, [c],
